@@ -58,12 +58,19 @@ impl PseudoArgData {
 
         Ok(PseudoArgData {
             blob: blob.map(|str| parse_args_blob(str).map(|s| sp!(str.span => s))).transpose()?,
-            param_mask: param_mask.map(|x| sp!(x.span => x.value as _)),
-            pop: pop.map(|x| sp!(x.span => x.value as _)),
-            extra_arg: extra_arg.map(|x| sp!(x.span => x.value as _)),
-            arg_count: arg_count.map(|x| sp!(x.span => x.value as _)),
+            param_mask: param_mask.map(|x| fit_pseudo(x, "@mask")).transpose()?,
+            pop: pop.map(|x| fit_pseudo(x, "@pop")).transpose()?,
+            extra_arg: extra_arg.map(|x| fit_pseudo(x, "@arg0")).transpose()?,
+            arg_count: arg_count.map(|x| fit_pseudo(x, "@nargs")).transpose()?,
         })
     }
+}
+
+fn fit_pseudo<T: TryFrom<i32>>(x: Sp<i32>, name: &str) -> Result<Sp<T>, Diagnostic> {
+    T::try_from(x.value).map(|value| sp!(x.span => value)).map_err(|_| error!(
+        message("pseudo-arg value out of range"),
+        primary(x, "{} does not fit in the {}-byte field of {name}", x.value, std::mem::size_of::<T>()),
+    ))
 }
 
 fn parse_args_blob(str: Sp<&str>) -> Result<Vec<u8>, Diagnostic> {
